@@ -7,3 +7,10 @@ add("C01", "TLC exhaustive case enumeration of Capture.tla + integer-exact repla
 add("C03", "TLC: exact zonotope/cone membership class of every lattice target (H-form oracle == V-form definition as invariant); replay of all (system, target) pairs into the membership API",
     "Convex.tla defines in-gamut as reproducibility by in-bound intensities; TLC proves on every lattice system x target that the facet (H-form) oracle equals vertex enumeration of the solution polytope (V-form), and emits the exact class of each target; every pair is replayed into ReceptorEstimator.in_hull, in_hull_from_A, in_hull(cloud) and the chromatic variant: interior must be accepted, exterior rejected.",
     "Trusted: TLC, parser. Lattice only: <=3 receptors x <=4 sources exhaustively, boundary targets recorded but not asserted; distance of asserted targets to the boundary >= ~1e-2.")
+
+add("C04", "TLC: exact bounded weighted least-squares optimum by active-set/KKT enumeration, proved optimal on the lattice (variational inequality, probe points, zero-error iff reproducible); replay into fit / lsq_linear within the property's solver tolerances",
+    "LsqLinear.tla states the normalised objective; TLC computes the exact optimum for every lattice (system, weights, target) and checks the definition of optimality as invariants; each case is replayed into ReceptorEstimator.fit (default solver and CLARABEL through **opt_kwargs) and lsq_linear (per-sample weights): no error, bounds, optimal prediction, prediction identity, unique intensities.",
+    "Trusted: TLC, parser, the tolerances written in the property (2e-2 / 1% default; 2e-3 / 1e-6 high accuracy). Lattice only (<=3x4, entries 0..3).")
+add("C06", "TLC: exact vertex set of the solution polytope -> per-source extents; invariants min<=max, within bounds, LSQ minimiser inside, empty iff exterior; replay into range_of_solutions incl. spaced solutions and error modes",
+    "Convex.tla!RangeOf gives the exact extents as rationals from vertex enumeration; every lattice (system, target) is replayed: extents to 1e-7, spaced solutions (n=2..10) in bounds and reproducing the target to 1e-6, outside targets raise / return the best fit as both ends.",
+    "Trusted: TLC, parser. Boundary targets asserted only when the call answers and the system is dyadic. Lattice: 1-3 receptors, 1-3 surplus sources.")
